@@ -68,7 +68,8 @@ def gen_template(r):
         p = ign(); ignored.add('principal')
     k = r.random()
     if k < 0.55: res = DOC
-    elif k < 0.92: res = var('r')
+    elif k < 0.86: res = var('r')
+    elif k < 0.92: res = var('p')          # the SAME variable as the principal may use: one binding completes several request parts
     else:
         res = ign(); ignored.add('resource')
     k = r.random()
